@@ -24,6 +24,10 @@ RULE = (
     "no absolute addresses) must hash identically in all configurations; "
     "interval addresses are compared separately. non-trivial = >=1 edit and "
     ">=2 configurations produced a dump; distinct = shape signatures."
+    " 40% of the scenarios are rewritten a second time by a fresh"
+    " context whose patch re-uses the first rewrite's temporary label"
+    " names; scope registrations with BlockPosition.ANYWHERE; blocks"
+    " shared by two functions."
 )
 ASSUMPTIONS = [
     "a nondeterminism that needs one specific address collision may be missed",
